@@ -104,11 +104,18 @@ func minimiseB(ops []bop, via, base string) ([]bop, string) {
 				}
 			}
 		}
-		for i := len(cur) - 1; i >= 0; i-- {
-			c := append(append([]bop(nil), cur[:i]...), cur[i+1:]...)
-			if cl := still(c); cl != "" {
-				cur, clause, changed = c, cl, true
+	windows:
+		for l := len(cur) - 1; l >= 1; l-- {
+			for i := len(cur) - l; i >= 0; i-- {
+				c := append(append([]bop(nil), cur[:i]...), cur[i+l:]...)
+				if cl := still(c); cl != "" {
+					cur, clause, changed = c, cl, true
+					break windows
+				}
 			}
+		}
+		if changed {
+			continue
 		}
 		// canonical order: adjacent operations are swapped towards the
 		// smaller encoding while the violation stays (interleavings that
@@ -281,7 +288,11 @@ func seqFamily(name string, c bcfg, budget int, vias ...string) *core.Family {
 		return &core.Family{Name: name, Size: 0, Run: func(uint64) core.Outcome { return core.Outcome{Skipped: true} }}
 	}
 	flat, offs = generate(&c)
-	get := func(i uint64) []bop { return flat[offs[i]:offs[i+1]] }
+	n := uint64(len(offs) - 1)
+	get := func(i uint64) []bop {
+		i = scramble(i, n) // a capped run samples every length and every region of the enumeration
+		return flat[offs[i]:offs[i+1]]
+	}
 	return &core.Family{
 		Name: name, Size: uint64(len(offs) - 1), BudgetSeconds: budget,
 		Run: func(i uint64) core.Outcome { return runSeqCase(get(i), vias) },
